@@ -128,11 +128,11 @@ IgnoredByOwnership(w, i) ==
     /\ OwnerOf(i) # w
     /\ StrengthOf[w] <= StrengthOf[OwnerOf(i)]
 
-\* Time based filter (C25): an ALIVE change is filtered iff it is closer than MinSep to an
-\* ALIVE change of the instance accepted before.
+\* Time based filter (C25): "a reader never presents two samples of the same instance whose source timestamps are
+\* closer than minimum_separation" - a dispose / unregister is presented as a sample too, so a change of ANY kind is
+\* filtered iff it is closer than MinSep to a change of the instance accepted before.
 FilteredByTime(i, k, ts) ==
     /\ MinSep > 0
-    /\ k = "ALIVE"
     /\ \E t \in acc[i] : Abs(ts - t) < MinSep
 
 \* KEEP_LAST replacement (C18): the instance already holds Depth data samples.
@@ -154,6 +154,15 @@ AddOp(w, i, k, ts, res, reasons, tag) ==
 
 NoChange == UNCHANGED <<samples, inst, owner, acc>>
 
+\* A change that is filtered or rejected is not stored, but the reader has heard of its writer: dust-dds keeps
+\* the set of writers of the instance up to date with every change that passes the ownership check, stored or
+\* not (a writer whose write was rejected for lack of room still has the instance registered, so the instance
+\* does not become NOT_ALIVE_NO_WRITERS when the other writers unregister).  The statements say nothing about
+\* this bookkeeping; the model follows the code.  Everything a reader can observe stays unchanged.
+HeardOnly(w, i, k) ==
+    /\ inst' = [inst EXCEPT ![i].writers = ApplyState(w, i, k).writers]
+    /\ UNCHANGED <<samples, owner, acc>>
+
 AddChange(w, i, k, ts) ==
     /\ nAdds < MaxAdds
     /\ w \in matched
@@ -161,6 +170,8 @@ AddChange(w, i, k, ts) ==
     \* a writer disposing / unregistering an instance it never wrote, dispose of an instance
     \* without writers, unregister of a disposed instance
     /\ k # "ALIVE" /\ inst[i].known => w \in inst[i].writers
+    \* ... and a dispose / unregister of an instance the reader has only heard of through rejected changes
+    /\ k # "ALIVE" /\ ~inst[i].known => inst[i].writers = {}
     /\ k = "DISPOSED" => inst[i].is # "NO_WRITERS"
     /\ k = "UNREGISTERED" => inst[i].is # "DISPOSED"
     /\ k = "DISPOSED_UNREGISTERED" => (inst[i].known => inst[i].is = "ALIVE")
@@ -182,15 +193,14 @@ AddChange(w, i, k, ts) ==
             /\ hist' = Append(hist, rec("NotAdded"))
             /\ lastOp' = AddOp(w, i, k, ts, "NotAdded", {}, "state:not-alive-change-of-unknown-instance")
        ELSE IF FilteredByTime(i, k, ts) THEN
-            /\ NoChange
+            /\ HeardOnly(w, i, k)
             /\ hist' = Append(hist, rec("NotAdded"))
             /\ lastOp' = AddOp(w, i, k, ts, "NotAdded", {},
-                               IF \E n \in IdxOfInst(i) : samples[n].kind = "ALIVE"
-                                                          /\ Abs(ts - samples[n].ts) < MinSep
+                               IF \E n \in IdxOfInst(i) : Abs(ts - samples[n].ts) < MinSep
                                THEN "timefilter:closer-than-minimum-separation"
                                ELSE "timefilter:closer-to-taken-sample-only")
        ELSE IF ~Replaces(i, k) /\ ExceededLimits(i, k) # {} THEN
-            /\ NoChange
+            /\ HeardOnly(w, i, k)
             /\ hist' = Append(hist, rec("Rejected"))
             /\ lastOp' = AddOp(w, i, k, ts, "Rejected", ExceededLimits(i, k),
                                IF inst[i].known /\ ApplyState(w, i, k).is # inst[i].is
@@ -207,7 +217,7 @@ AddChange(w, i, k, ts) ==
             /\ owner' = IF ~Exclusive THEN owner
                         ELSE IF k \in {"UNREGISTERED", "DISPOSED_UNREGISTERED"} THEN [owner EXCEPT ![i] = NoWriter]
                         ELSE [owner EXCEPT ![i] = w]
-            /\ acc' = IF k = "ALIVE" /\ MinSep > 0 THEN [acc EXCEPT ![i] = @ \cup {ts}] ELSE acc
+            /\ acc' = IF MinSep > 0 THEN [acc EXCEPT ![i] = @ \cup {ts}] ELSE acc
             /\ hist' = Append(hist, rec("Added"))
             /\ lastOp' = AddOp(w, i, k, ts, "Added", {},
                                IF Replaces(i, k) THEN "history:keep-last-replaces-oldest"
